@@ -239,7 +239,7 @@ fn run_op(st: &mut St, op: &Vec<J>) -> String {
             st.tmp_counter += 1;
             let path = std::env::temp_dir().join(format!("vreplay_{}_{}.txt", std::process::id(), st.tmp_counter));
             std::fs::write(&path, op[2].str()).unwrap();
-            let mut kb = KnowledgeBase::new();
+            let mut kb = if op.len() > 3 { st.kb(op[3].usize()).clone() } else { KnowledgeBase::new() };
             let r = load_kb_from_file(&mut kb, path.to_str().unwrap());
             let _ = std::fs::remove_file(&path);
             st.set(op[1].usize(), V::KB(Box::leak(Box::new(kb))));
